@@ -282,7 +282,7 @@ func llEnumerate(c *eng.Ctx, sub string, run func(a llCase, c *eng.Ctx) *eng.Fai
 			a := llCase{W: j.b.w, H: j.b.h, C: j.b.c, P: j.b.p, Pred: j.pred, S: s}
 			c.Eval(1)
 			if f := eng.Guard(func() *eng.Fail { return run(a, c) }); f != nil {
-				eng.Check(c, sub, a, reg)
+				eng.Recheck(c, sub, a, reg)
 			}
 		}
 	})
@@ -315,7 +315,7 @@ func llEnumerate(c *eng.Ctx, sub string, run func(a llCase, c *eng.Ctx) *eng.Fai
 				a := llCase{W: w, H: h, C: 1, P: 16, Pred: j.pred, S: s}
 				c.Eval(1)
 				if f := eng.Guard(func() *eng.Fail { return run(a, c) }); f != nil {
-					eng.Check(c, sub, a, reg)
+					eng.Recheck(c, sub, a, reg)
 				}
 			}
 		}
@@ -356,7 +356,7 @@ func llEnumerate(c *eng.Ctx, sub string, run func(a llCase, c *eng.Ctx) *eng.Fai
 		a := llCase{W: j.w, H: j.h, C: j.c, P: j.p, Pred: j.pred, S: familyImage(j.w, j.h, j.c, j.p, j.k)}
 		c.Eval(1)
 		if f := eng.Guard(func() *eng.Fail { return run(a, c) }); f != nil {
-			eng.Check(c, sub, a, reg)
+			eng.Recheck(c, sub, a, reg)
 		}
 	})
 	if !done {
